@@ -7,6 +7,8 @@
 (*        pulled at most `take` items (take < 0: all) and then dropped the *)
 (*        iterator; `ended` says whether it saw None; `outs` is what it    *)
 (*        saw, each <<tag, outcome, multiple>>.                            *)
+(*   panic what                 - process()/next() panicked or ran away;   *)
+(*        the history ends there                                           *)
 (***************************************************************************)
 EXTENDS TraceBase
 
@@ -62,9 +64,14 @@ TProc ==
                     <<"C14:nonmultiple", \A i \in 1..Len(e.outs) : e.outs[i][3] = FALSE>>
                   >>)
 
+\* process() panicked, or its iterator did not end within 100 000 items (record `panic what`)
+TPanic == /\ IsEv("panic")
+          /\ Step(<< <<"C14:nopanic", FALSE>> >>)
+          /\ UNCHANGED <<covered, emitted, wf, claimed>>
+
 TSkip == Skipping /\ Skip /\ UNCHANGED <<covered, emitted, wf, claimed>>
 
-Next == IF Skipping THEN TSkip ELSE (TReset \/ TProc)
+Next == IF Skipping THEN TSkip ELSE (TReset \/ TProc \/ TPanic)
 
 Spec == Init /\ [][Next]_vars
 =============================================================================
